@@ -158,7 +158,7 @@ CHECKS = {
               "series, scaling and batch-row relation events; put_array_in_2d_array on every shift vector in {-2..2}^(1..3) x 4 clip "
               "modes and join_values_w_shifts / join_sig_w_time_shift against the definition."),
         design_ref="DESIGN.md section 4, C19",
-        note=LEVEL_NOTE_N + "; start=True constrained as a relation (the statement fixes only the length)"),
+        note=LEVEL_NOTE_N + "; start=True constrained as a relation: a whole-sample delay within one sample of (stt - tt)/dt (the statement itself fixes only the length)"),
     "C06": dict(
         engine="Fourier",
         technique="TLA+ integer model of the transform length / bin count and the definitional DFT over the FP carrier; TLC exhaustive (all lengths, all short records) with the implementation in lock-step; TLC trace validation with one event per bin",
@@ -283,6 +283,31 @@ AMEND += [
 for _pid, _old, _new in AMEND:
     assert _old in CHECKS[_pid]["text"], (_pid, _old[:50])
     CHECKS[_pid]["text"] = CHECKS[_pid]["text"].replace(_old, _new)
+
+# what the last rounds added to every driver (appended to the claims; DESIGN.md section 8.6 has the history)
+APPEND = {
+    "C01": "Records also as int64 / int32 / int16 / int8 / uint8 counts and float32, through all three entry points.",
+    "C03": "Narrow-integer count records containing the type's most negative count on both sides of 6 dt (PgaBelow6dt).",
+    "C04": "Value sessions: every baseline correction, filter and detrending step also carries the record left by the same call on a freshly constructed object (clause Havoc_<op>_history: what an operation does may not depend on earlier reads), incl. timezone forms.",
+    "C05": "Ownership model also has the caller writing into a returned time axis and the windowed (timezone) residual correction; the observable digest covers about 160 entries incl. results changed in place.",
+    "C06": "Dominant period also for records in extreme units (2^-560 .. 2^520: squares leave the double range, the spec's modulus is hypot).",
+    "C07": "Spectra on the caller's own axes (octave bands, log-spaced with ratio > 2, irregular, no zero bin) and whole-number targets held in integer types, array level and setter.",
+    "C08": "Records as int8 / int16 / int32 / uint8 counts incl. the type's most negative count (PeakIsMaxAbs); magnitudes 2^-560 .. 2^520.",
+    "C09": "Records as narrow-integer counts incl. the type's most negative count; the deprecated object-level generator with history; exact monotonicity.",
+    "C10": "Narrow-integer counts with the most negative count bracketing the motion; weak-motion records (1e-9 .. 1e-4); a 'no duration' answer without raising is validated like the IndexError (RaisesOnlyIfEmpty); non-monotone user measures.",
+    "C11": "Cleaned-array entry point on full-range int8 / uint8 / int16 / uint16 plateau-free counts; signal-level wrapper on objects that held another record before.",
+    "C12": "Signal-level wrappers on objects analysed while holding another record and then changed through the public API; int8 / int16 / int32 counts; flags and tolerances as python / numpy / int scalars.",
+    "C13": "Cleaned-data delta entry point; full-range int8 / int16 counts incl. the most negative count in the power-law events; joint scaling exact to the relative floor.",
+    "C14": "Exactly band-limited records of whole-number counts held as int64 / int32 / int16 (Fourier resample) and integer-typed records in the interpolation events; decimation ratios 49 .. 187; whole-period clause.",
+    "C15": "Dominant-frequency trace also in extreme units (2^-560, 2^515).",
+    "C16": "Empty and blanks-only labels, padded and non-ASCII labels, multipliers 0.01 .. 9.81 and negative.",
+    "C17": "Adders on full-range int8 / uint8 / int16 / uint16 / int32 records with whole-number constants, count series and count signals (AddElementwise); integer record = float record for the filter; 20001-sample degree-4 detrend.",
+    "C18": "master_index reassigned after construction; records on levels up to 1e8 (level / change up to 1e9); narrow-integer clusters; windows of all four kinds inside the record.",
+    "C19": "get_time_shift_motions of every energy event against the acceleration series of the definition (ShiftedWaveDefinition); start=True rows must be the start=False rows delayed by a whole number of samples within one of (stt - tt)/dt; records as int8 / int16 / int32 / uint8 / float32 with whole-number reduction factors as python / numpy integers.",
+    "C20": "Tables of whole numbers as uint8 / int8 / uint16 / int16 / uint32 / int64; integer nodes with negative fractional queries; first / last sample as split.",
+}
+for _pid, _extra in APPEND.items():
+    CHECKS[_pid]["text"] = CHECKS[_pid]["text"].rstrip() + " " + _extra
 
 NOT_YET = {}
 
